@@ -85,6 +85,13 @@ claim("C13", "exploration",
       "Trusted: the yield points cover the racing steps (they sit at every access of the shared waker slot, notification channel and cache in the code paths used); real OS preemption between yield points is not explored. The mio event sources are polled with a zero timeout after the producer has finished, so readiness must already be latched.",
       "DESIGN.md section 2, C13")
 
+claim("C07", "exploration",
+      "configuration / schedule / fault generation over LIVE participants: generated creation orders, pauses, QoS, payload sizes and datagram loss for two or three real DomainParticipants in one process; oracle = the sent sequence (round trip through the public API) and matched-status events",
+      "Every case creates two or three real DomainParticipants in a private domain on this host and observes only DataWriter::write/dispose, DataReader::take and the matched-status events. Generated: the interleaving of the creation chains (participant -> topic -> writer -> early writes | participant -> topic -> reader | optional third participant and reader), pauses 0 / 30 ms / 300 ms / 2.5 s between the steps, with_key / no_key, Volatile / TransientLocal on either side, payload sizes of every residue mod 4 around 1x and 2x the fragment size, values and disposals, loss 0-20 % and duplication 0-5 % of ALL datagrams of the domain (guarded tap in UDPSender), and the entity deleted at the end. "
+      "Checked: everybody matches within 40 s; samples written after matching arrive completely, in order and unaltered (blob is a function of the sequence number); a TransientLocal reader takes exactly retained history + later samples; a Volatile reader takes no sample written before it existed and only a suffix of the other early ones; deleting reader / writer / either participant produces an unmatch event with the right current count within 45 s. A fixed list of formerly failing creation orders always runs first.",
+      "Trusted: generous real-time bounds; a case that misses a bound is run again and reported only if it fails twice (a flaky genuine defect may be missed, a loaded machine does not raise an alarm). The thread schedule is not controlled; a replay file reproduces the configuration only. A fault-free calibration pair must work first, otherwise the check exits 2 (no usable interface). Security-enabled configurations: see C16-C19.",
+      "DESIGN.md section 2, C07")
+
 claim("C02", "exploration",
       "fault-injection property-based testing: generated fault plans (drop / duplicate / delay per datagram) over a bounded run of a real Writer and 1-2 real Readers, followed by fault-free rounds; liveness decided as a fixpoint test on a projection of the protocol state, plus a quietness check",
       "A generated fault plan decides the fate of every datagram (DATA, DATAFRAG, HEARTBEAT, GAP, ACKNACK, NACKFRAG) exchanged between a real reliable Writer and real reliable Readers during generated writes / heartbeat ticks / timer steps / cache cleanings. Then faults stop and rounds {heartbeat tick, deliver all, fire timers to quiescence} run. "
